@@ -257,12 +257,16 @@ CHECKS["C08"] = dict(
           "pipeline insert -> flusher -> device -> load for values Vec<u8>/String/Bytes x keys u64/String x compression None/Zstd/"
           "Lz4 (hook) with lengths 0,1,2,7,8,100, page-60..page+1, the per-entry maximum -200..+1 page, 2x maximum and random, "
           "compressible and incompressible: the loaded value equals the original or the entry is absent as a whole; an entry whose "
-          "raw size fits a block must not be absent. Non-trivial = a value round-tripped; distinct = hash(type, value or length)."),
-    assumptions=["the `serde` (bincode) Code path is not compiled into the harness (feature off); only the built-in impls are judged",
+          "raw size fits a block must not be absent; after the run every entry on the device is read back by the independent "
+          "reader: header key_len + value_len + 36 equals the indexed length and the (decompressed) value / key bytes equal what "
+          "the Code impls produce for the originals; part A also decodes through readers that return 1/3/7/64/1000 bytes per "
+          "read. Non-trivial = a value round-tripped; distinct = hash(type, value or length)."),
+    assumptions=["quick tier: built-in Code impls (foyer's `serde` feature off); the thorough tier repeats the whole check with a second build of the harness that enables foyer/serde, where Code is the blanket bincode impl",
                  "String payloads are ASCII in the pipeline part (multi-byte strings are covered in part A)"],
     min_nontrivial=50,
     jobs=[dict(cmd="c08", tiers=["quick", "thorough"], timeout=2400),
-          dict(cmd="c08", flavour="asan", tier_arg="quick", tiers=["thorough"], timeout=3000, env={"ASAN_OPTIONS": "detect_leaks=0:halt_on_error=1:abort_on_error=0"})],
+          dict(cmd="c08", flavour="asan", tier_arg="quick", tiers=["thorough"], timeout=3000, env={"ASAN_OPTIONS": "detect_leaks=0:halt_on_error=1:abort_on_error=0"}),
+          dict(cmd="c08", flavour="serde", tiers=["thorough"], timeout=3000)],
 )
 
 CHECKS["C15"] = dict(
